@@ -170,6 +170,19 @@ func (p *c16) pipeline(rec *core.Recorder, r *core.Rand, viaLoader bool) {
 	}
 	// engine A: source -> compiled bytes for every template
 	a := freshEngine(srcs)
+	stale := !viaLoader && r.P(1, 3)
+	if stale {
+		// sources registered by string carry a registration time; the destination engine below will hold other, later
+		// registered templates under the same names before the compiled data arrives
+		rec.Count("destination-had-the-names", 1)
+		a = twig.New()
+		for _, n := range sortedKeys(srcs) {
+			if err := a.RegisterString(n, srcs[n]); err != nil {
+				rec.Count("skipped-register-failed", 1)
+				return
+			}
+		}
+	}
 	blobs := map[string][]byte{}
 	var dir string
 	if viaLoader {
@@ -232,6 +245,15 @@ func (p *c16) pipeline(rec *core.Recorder, r *core.Rand, viaLoader bool) {
 			if viaLoader {
 				b.RegisterLoader(twig.NewCompiledLoader(dir))
 			} else {
+				if stale {
+					// "any engine": also one that already holds other templates under these names
+					for _, n := range sortedKeys(blobs) {
+						b.RegisterString(n, "STALE["+n+"]")
+					}
+					if k == 1 {
+						b.Render(entry, ctx)
+					}
+				}
 				for _, n := range sortedKeys(blobs) {
 					if err := b.LoadFromCompiledData(blobs[n]); err != nil {
 						rb.Err = fmt.Errorf("LoadFromCompiledData(%s): %w", n, err)
